@@ -605,6 +605,133 @@ func c11Stateless(env *verifx.Env, res *verifx.Result, t *testing.T) {
 	}
 }
 
+// c11UnknownIDs: a stateful endpoint with one live session.  Requests of every method present session
+// ids that the server never issued - of every shape an HTTP header value may legally have (inner
+// blanks, tabs, non-ASCII bytes, very long, case variants and fragments of the live id).  Every one of
+// them is answered 404; none creates a session, none is issued an id, the live session is untouched.
+func c11UnknownIDs(env *verifx.Env, res *verifx.Result, t *testing.T) {
+	cases := env.NewCases(res, "unknown-session-ids")
+	shapes := []string{"no-such-session", "no such session", "tab\tinside", "sess-\u00fc\u00f1\u00ef", "\x80\xff", strings.Repeat("x", 300), "LIVE-upper", "LIVE-prefix", "LIVE-plus", "0", "null", "undefined"}
+	for _, shape := range shapes {
+		for _, kind := range []string{"POST-ping", "POST-initialize", "POST-notification", "POST-call", "GET", "DELETE"} {
+			idx, mine := cases.Next()
+			if !mine {
+				continue
+			}
+			var sig, msg, obs string
+			func() {
+				defer func() {
+					if r := recover(); r != nil && sig == "" {
+						sig, msg = "c11 unknown-id panic-or-leak", fmt.Sprintf("%v [%s sid shape %q]", r, kind, shape)
+					}
+				}()
+				synctest.Test(t, func(t *testing.T) {
+					s := NewServer(&Implementation{Name: "srv", Version: "1"}, &ServerOptions{Logger: quietLogger})
+					ran := 0
+					AddTool(s, &Tool{Name: "t"}, func(ctx context.Context, r *CallToolRequest, in map[string]any) (*CallToolResult, any, error) {
+						ran++
+						return &CallToolResult{}, nil, nil
+					})
+					h := NewStreamableHTTPHandler(func(*http.Request) *Server { return s }, &StreamableHTTPOptions{Logger: quietLogger})
+					do := func(method, sid, body string) *httptest.ResponseRecorder {
+						var rd io.Reader
+						if body != "" {
+							rd = strings.NewReader(body)
+						}
+						ctx, cancel := context.WithCancel(context.Background())
+						defer cancel()
+						r := httptest.NewRequest(method, "http://example.test/mcp", rd).WithContext(ctx)
+						r.Header.Set("Accept", "application/json, text/event-stream")
+						if body != "" {
+							r.Header.Set("Content-Type", "application/json")
+						}
+						if sid != "" {
+							r.Header["Mcp-Session-Id"] = []string{sid}
+							r.Header.Set("Mcp-Protocol-Version", "2025-06-18")
+						}
+						w := httptest.NewRecorder()
+						done := make(chan struct{})
+						go func() { defer close(done); h.ServeHTTP(w, r) }()
+						synctest.Wait()
+						select {
+						case <-done:
+						default:
+							cancel() // a stream that was opened: hang up
+							<-done
+						}
+						return w
+					}
+					const initialize = `{"jsonrpc":"2.0","id":"i","method":"initialize","params":{"protocolVersion":"2025-06-18","capabilities":{},"clientInfo":{"name":"c","version":"1"}}}`
+					w := do("POST", "", initialize)
+					live := w.Header().Get("Mcp-Session-Id")
+					if w.Code != 200 || live == "" {
+						sig, msg = "c11 unknown-id setup", fmt.Sprintf("initialize: %d", w.Code)
+						return
+					}
+					do("POST", live, `{"jsonrpc":"2.0","method":"notifications/initialized","params":{}}`)
+					sid := shape
+					switch shape {
+					case "LIVE-upper":
+						sid = strings.ToUpper(live)
+						if sid == live {
+							sid = strings.ToLower(live)
+						}
+					case "LIVE-prefix":
+						sid = live[:len(live)-1]
+					case "LIVE-plus":
+						sid = live + "x"
+					}
+					if sid == live {
+						obs = "shape coincides with the live id"
+						return
+					}
+					desc := fmt.Sprintf("%s presenting the never-issued session id %q", kind, sid)
+					switch kind {
+					case "POST-ping":
+						w = do("POST", sid, `{"jsonrpc":"2.0","id":1,"method":"ping"}`)
+					case "POST-initialize":
+						w = do("POST", sid, initialize)
+					case "POST-notification":
+						w = do("POST", sid, `{"jsonrpc":"2.0","method":"notifications/initialized","params":{}}`)
+					case "POST-call":
+						w = do("POST", sid, `{"jsonrpc":"2.0","id":1,"method":"tools/call","params":{"name":"t","arguments":{}}}`)
+					case "GET":
+						w = do("GET", sid, "")
+					case "DELETE":
+						w = do("DELETE", sid, "")
+					}
+					n := len(slices.Collect(s.Sessions()))
+					switch {
+					case w.Header().Get("Mcp-Session-Id") != "" && w.Header().Get("Mcp-Session-Id") != sid:
+						sig, msg = "c11 unknown-id session-id-minted", fmt.Sprintf("%s: the response carries a new Mcp-Session-Id %q (status %d)", desc, w.Header().Get("Mcp-Session-Id"), w.Code)
+					case n != 1:
+						sig, msg = "c11 unknown-id session-count", fmt.Sprintf("%s: the server now has %d sessions, want the 1 live one (status %d)", desc, n, w.Code)
+					case ran != 0:
+						sig, msg = "c11 unknown-id effect", fmt.Sprintf("%s: the tool ran", desc)
+					case w.Code != 404:
+						sig, msg = fmt.Sprintf("c11 unknown-id wrong-status %s got %d want 404", kind, w.Code), fmt.Sprintf("%s: status %d, want 404", desc, w.Code)
+					}
+					if sig == "" {
+						// the live session is untouched
+						if w := do("POST", live, `{"jsonrpc":"2.0","id":2,"method":"ping"}`); w.Code != 200 {
+							sig, msg = "c11 unknown-id live-session-harmed", fmt.Sprintf("%s: afterwards a ping on the live session is answered %d", desc, w.Code)
+						}
+					}
+					for ss := range s.Sessions() {
+						ss.Close()
+					}
+					obs = kind + "-404"
+				})
+			}()
+			if sig != "" {
+				cases.Violate(idx, sig, msg, 3)
+				continue
+			}
+			cases.Record(idx, obs, 3, func() string { return fmt.Sprintf("%s sid shape %q", kind, shape) })
+		}
+	}
+}
+
 func TestVerifC11(t *testing.T) {
 	env := verifx.LoadEnv("C11")
 	res := env.NewResult()
@@ -624,5 +751,6 @@ func TestVerifC11(t *testing.T) {
 	})
 	c11WithFailingStore = false
 	c11Stateless(env, res, t)
+	c11UnknownIDs(env, res, t)
 	env.Finish(res)
 }
